@@ -46,7 +46,7 @@ class C11(Check):
         "cases: (server) the request corpus of C01-C03 and the middleware / error-handler configurations of C12 - each case is dispatched by the "
         "sync dispatcher (plain functions), the async dispatcher (coroutines and async views) and the async dispatcher with the sync "
         "registry (plain functions); (client-script) C19's per-attempt outcome words x retry strategies x 0..3 tracers x single / batch / "
-        "notification x caller / default trace context x JSON codec configured on the client {defaults, encoder / decoder classes, loader / dumper functions: floats parsed as Decimal, Decimal parameters written as tagged strings}; (client-retry) C09's strategies x outcome words x placements; (client-notation) "
+        "notification x caller / default trace context x strict on / off x JSON codec configured on the client {defaults, encoder / decoder classes, loader / dumper functions: floats parsed as Decimal, Decimal parameters written as tagged strings}; (client-retry) C09's strategies x outcome words x placements; (client-notation) "
         "C07's call plans x notations x id generators through sync-client+sync-dispatcher and async-client+async-dispatcher. Oracle "
         "(differential): identical response document + codes + execution log + middleware/handler event log; identical wire documents and transport keyword arguments (client-wide request_args merged with per-call ones), "
         "returned values, exception class / code / message / data, tracer event sequence and sleep sequence. non-trivial as in the source "
@@ -59,7 +59,7 @@ class C11(Check):
         "random-based id generators are reseeded identically before each half; the uuid generator is not used here",
     ]
     trusted_base = ['none beyond the harness: both halves are the implementation under test']
-    required_classes = ['server/plain', 'server/stack', 'client-script', 'client-retry', 'client-notation', 'server/async-plain-functions', 'codec/classes', 'codec/functions']
+    required_classes = ['server/plain', 'server/stack', 'client-script', 'client-retry', 'client-notation', 'server/async-plain-functions', 'codec/classes', 'codec/functions', 'strict/off']
 
     def strategy(self, tier: str):
         def server_plain():
@@ -70,8 +70,9 @@ class C11(Check):
         s12 = c12.CHECK.strategy(tier).map(lambda s: {'kind': 'server', 'max_batch_size': None, 'behaviours': s['behaviours'], 'text': s['text'],
                                                       'middlewares': s['middlewares'], 'handlers': s['handlers'], 'mw_container': s.get('mw_container', 'list')})
         s_codec = st.sampled_from(['default', 'default'] + ch.CODECS[1:])
-        s19 = st.tuples(c19.CHECK.strategy(tier), s_codec).map(lambda t: {**t[0], 'kind': 'client-script', 'codec': t[1]})
-        s09 = st.tuples(c09.CHECK.strategy(tier), s_codec).map(lambda t: {**t[0], 'kind': 'client-retry', 'codec': t[1]})
+        s_strict = st.sampled_from([True, True, False])
+        s19 = st.tuples(c19.CHECK.strategy(tier), s_codec, s_strict).map(lambda t: {**t[0], 'kind': 'client-script', 'codec': t[1], 'strict': t[2]})
+        s09 = st.tuples(c09.CHECK.strategy(tier), s_codec, s_strict).map(lambda t: {**t[0], 'kind': 'client-retry', 'codec': t[1], 'strict': t[2]})
         s07 = c07.CHECK.strategy(tier).filter(lambda s: s['id_gen']['kind'] != 'uuid').map(lambda s: {**s, 'kind': 'client-notation'})
         return st.one_of(server_plain(), server_plain(), s12, s19, s09, s07)
 
@@ -90,6 +91,10 @@ class C11(Check):
         for codec in ch.CODECS[1:]:
             out.append({'kind': 'server', 'max_batch_size': None, 'behaviours': {}, 'middlewares': [], 'handlers': None, 'codec': codec,
                         'text': t([{'jsonrpc': '2.0', 'id': 1, 'method': 'echo', 'params': [1.5]}, {'jsonrpc': '2.0', 'id': 2, 'method': 'echo', 'params': {'a': [0.25]}}])})
+        # non-strict scripted clients: a notification (and a notification-only batch) whose transport answers with a body
+        for rk in ('notification', 'single', 'batch'):
+            for word in (['not-response', 'ok'], ['scalar-body', 'ok'], ['identity', 'ok'], ['not-json', 'ok']):
+                out.append({'kind': 'client-script', 'strict': False, 'request': rk, 'outcomes': word, 'tracers': 1, 'ctx': 'default', 'strategy': None})
         # scripted clients with an application JSON codec, every request kind
         for codec in ch.CODECS[1:]:
             for rk in ('single', 'batch', 'notification'):
@@ -211,6 +216,7 @@ class C11(Check):
         # the JSON codec the application configured on the client (classes or functions); with it a Decimal parameter is sendable
         codec = spec.get('codec', 'default')
         kwargs.update(ch.codec_kwargs(codec))
+        kwargs['strict'] = spec.get('strict', True)
         one: Any = 1
         if codec != 'default':
             import decimal
@@ -255,7 +261,8 @@ class C11(Check):
         a = self._script(spec, 'sync', outcomes, rkind, spec['strategy'])
         b = self._script(spec, 'async', outcomes, rkind, spec['strategy'])
         discs = self._compare_clients('client-script', a, b, where)
-        return Outcome(discs, len(a['sent']) >= 2 or spec['tracers'] >= 2, ['client-script', f"request/{rkind}", f"codec/{spec.get('codec', 'default')}"], evaluations=2)
+        return Outcome(discs, len(a['sent']) >= 2 or spec['tracers'] >= 2,
+                       ['client-script', f"request/{rkind}", f"codec/{spec.get('codec', 'default')}", 'strict/on' if spec.get('strict', True) else 'strict/off'], evaluations=2)
 
     def _run_client_retry(self, spec: Any) -> Outcome:
         rkind = spec['request']
